@@ -66,14 +66,15 @@ fn resolve_integer_array_value(value: Option<Value<'_>>) -> Result<Option<ValueB
             values
                 .iter()
                 .map(|result| {
-                    result.map(Int8::from).map(|value| match value {
-                        Int8::Value(n) => Some(i32::from(n)),
-                        Int8::Missing => None,
-                        _ => todo!("unhandled i8 array value: {:?}", value),
-                    })
+                    result
+                        .map_err(|_| DecodeError::UnexpectedEof)
+                        .and_then(|n| match Int8::from(n) {
+                            Int8::Value(n) => Ok(Some(i32::from(n))),
+                            Int8::Missing => Ok(None),
+                            _ => Err(DecodeError::InvalidArrayValue),
+                        })
                 })
-                .collect::<Result<Vec<_>, _>>()
-                .map_err(|_| DecodeError::UnexpectedEof)?,
+                .collect::<Result<Vec<_>, _>>()?,
         ))),
         Some(Value::Int16(Some(Int16::Value(n)))) => {
             Ok(Some(ValueBuf::from(vec![Some(i32::from(n))])))
@@ -82,28 +83,30 @@ fn resolve_integer_array_value(value: Option<Value<'_>>) -> Result<Option<ValueB
             values
                 .iter()
                 .map(|result| {
-                    result.map(Int16::from).map(|value| match value {
-                        Int16::Value(n) => Some(i32::from(n)),
-                        Int16::Missing => None,
-                        _ => todo!("unhandled i16 array value: {:?}", value),
-                    })
+                    result
+                        .map_err(|_| DecodeError::UnexpectedEof)
+                        .and_then(|n| match Int16::from(n) {
+                            Int16::Value(n) => Ok(Some(i32::from(n))),
+                            Int16::Missing => Ok(None),
+                            _ => Err(DecodeError::InvalidArrayValue),
+                        })
                 })
-                .collect::<Result<Vec<_>, _>>()
-                .map_err(|_| DecodeError::UnexpectedEof)?,
+                .collect::<Result<Vec<_>, _>>()?,
         ))),
         Some(Value::Int32(Some(Int32::Value(n)))) => Ok(Some(ValueBuf::from(vec![Some(n)]))),
         Some(Value::Array(Array::Int32(values))) => Ok(Some(ValueBuf::from(
             values
                 .iter()
                 .map(|result| {
-                    result.map(Int32::from).map(|value| match value {
-                        Int32::Value(n) => Some(n),
-                        Int32::Missing => None,
-                        _ => todo!("unhandled i32 array value: {:?}", value),
-                    })
+                    result
+                        .map_err(|_| DecodeError::UnexpectedEof)
+                        .and_then(|n| match Int32::from(n) {
+                            Int32::Value(n) => Ok(Some(n)),
+                            Int32::Missing => Ok(None),
+                            _ => Err(DecodeError::InvalidArrayValue),
+                        })
                 })
-                .collect::<Result<Vec<_>, _>>()
-                .map_err(|_| DecodeError::UnexpectedEof)?,
+                .collect::<Result<Vec<_>, _>>()?,
         ))),
         v => Err(type_mismatch_error(v, Type::Integer)),
     }
@@ -132,14 +135,15 @@ fn resolve_float_array_value(value: Option<Value<'_>>) -> Result<Option<ValueBuf
             values
                 .iter()
                 .map(|result| {
-                    result.map(Float::from).map(|value| match value {
-                        Float::Value(n) => Some(n),
-                        Float::Missing => None,
-                        _ => todo!("unhandled float array value: {:?}", value),
-                    })
+                    result
+                        .map_err(|_| DecodeError::UnexpectedEof)
+                        .and_then(|n| match Float::from(n) {
+                            Float::Value(n) => Ok(Some(n)),
+                            Float::Missing => Ok(None),
+                            _ => Err(DecodeError::InvalidArrayValue),
+                        })
                 })
-                .collect::<Result<Vec<_>, _>>()
-                .map_err(|_| DecodeError::UnexpectedEof)?,
+                .collect::<Result<Vec<_>, _>>()?,
         ))),
         v => Err(type_mismatch_error(v, Type::Float)),
     }
@@ -233,6 +237,7 @@ pub enum DecodeError {
     },
     MissingCharacter,
     InvalidCharacter,
+    InvalidArrayValue,
 }
 
 impl error::Error for DecodeError {
@@ -257,6 +262,7 @@ impl fmt::Display for DecodeError {
             }
             Self::MissingCharacter => write!(f, "missing character"),
             Self::InvalidCharacter => write!(f, "invalid character"),
+            Self::InvalidArrayValue => write!(f, "invalid array value"),
         }
     }
 }
